@@ -306,7 +306,7 @@ class CompositeFrontend(ConstrainedFrontend):
     #
 
     def _ensure_sat(self, extra_constraints):
-        if self._unsat or (len(extra_constraints) == 0 and not self.satisfiable()):
+        if self._unsat or not self.satisfiable(extra_constraints=extra_constraints):
             raise UnsatError("CompositeSolver is already unsat")
 
     def check_satisfiability(self, extra_constraints=(), exact=None):
